@@ -214,10 +214,14 @@ fn parse_variable_definition(
     let variable = parse_variable(pairs.next().unwrap(), pc)?;
     let var_type = parse_type(pairs.next().unwrap(), pc)?;
 
-    let directives = parse_opt_directives(&mut pairs, pc)?;
+    // either order is accepted, see `variable_definition` in graphql.pest
+    let mut directives = parse_opt_directives(&mut pairs, pc)?;
     let default_value = parse_if_rule(&mut pairs, Rule::default_value, |pair| {
         parse_default_value(pair, pc)
     })?;
+    if directives.is_empty() {
+        directives = parse_opt_directives(&mut pairs, pc)?;
+    }
 
     debug_assert_eq!(pairs.next(), None);
 
